@@ -162,8 +162,11 @@ def type_object_type(
 
     if info.type_object_type is not None:
         if allow_cache:
-            return info.type_object_type
-        info.type_object_type = None
+            # The cached result was computed with strict_optional=True (see below).
+            if state.strict_optional:
+                return info.type_object_type
+        else:
+            info.type_object_type = None
 
     # We take the type from whichever of __init__ and __new__ is first
     # in the MRO, preferring __init__ if there is a tie.
